@@ -103,7 +103,8 @@ def run(ctx, canary=False):
                 "each call, and the caller's lists/arrays/zero spec/options compared with deep copies. non-trivial = history of >= 2 calls")
     L = lists()
     cfg = ("CONSTANTS\n  Lists = %s\n  Totals = {\"none\", \"T\"}\n  Engines = {\"MD\", \"RDA\", \"IG\"}\n  Depth = %d\n  WarmModes = {TRUE, FALSE}\n"
-           "SPECIFICATION Spec\nINVARIANT HistoryFree\nINVARIANT SnapshotsStable\nINVARIANT Emit\nCHECK_DEADLOCK FALSE\n")
+           "  Callbacks = {\"none\", \"counter\", \"logger\"}\n"
+           "SPECIFICATION Spec\nINVARIANT HistoryFree\nINVARIANT SnapshotsStable\nINVARIANT ObserverTransparent\nINVARIANT Emit\nCHECK_DEADLOCK FALSE\n")
     r = ctx.tlc("est/EngineHistory.tla", cfg % (to_tla(set(L)), depth), name="EngineHistory", workers=4, timeout=3600)
     if r.violated:
         ctx.violation("design-level: %s violated in EngineHistory.tla" % r.violated, {"tlc": r.trace_text()}, {"kind": "design"})
@@ -130,7 +131,19 @@ def run(ctx, canary=False):
                 meas = [tuple(m) for m in L[c["l"]]]
                 opts = {}
                 snap = snapshot_inputs(meas, zeros, opts)
-                model = E.quiet(eng.estimate, meas, total=TOT[c["t"]], engine=c["s"], options=opts)
+                seen_cb = []
+                cb = None
+                if c.get("cb") == "counter":
+                    cb = lambda mu, seen_cb=seen_cb: seen_cb.append(float(sum(mu[cl].values.sum() for cl in mu)) / max(1, len(mu)))
+                elif c.get("cb") == "logger":
+                    from mbi.callbacks import Logger
+                    cb = Logger(eng, frequency=7)
+                model = E.quiet(eng.estimate, meas, total=TOT[c["t"]], engine=c["s"], callback=cb, options=opts)
+                if c.get("cb") == "counter" and seen_cb:
+                    if len(seen_cb) != iters or any(not math.isclose(v, float(model.total), rel_tol=1e-6) for v in seen_cb):
+                        ctx.violation("call %d: the callback was called %d times (iters=%d) with marginal vectors of mean mass %s (total %r)" % (
+                            k + 1, len(seen_cb), iters, sorted(set(round(v, 6) for v in seen_cb))[:3], float(model.total)), info, {"kind": "callback"})
+                        break
                 cur = answers(model)
                 opts.pop("callback", None)       # estimate() documents that it stores the callback in options
                 ch = inputs_changed(meas, zeros, opts, snap)
